@@ -242,7 +242,7 @@ pub proof fn lemma_br_gcd_strip_pow2(x: int, k: nat, b: int)
     vstd::arithmetic::power2::lemma_pow2_pos(k);
     assert(x * pow2(k) >= 0) by (nonlinear_arith) requires x >= 0, pow2(k) > 0;
     if k == 0 {
-        assert(pow2(0) == 1) by (compute);
+        vstd::arithmetic::power2::lemma2_to64();
         assert(x * 1 == x);
     } else {
         vstd::arithmetic::power2::lemma_pow2_unfold(k);
@@ -307,7 +307,7 @@ pub proof fn lemma_br_gcd_scale_pow2(x: int, y: int, k: nat)
     vstd::arithmetic::power2::lemma_pow2_pos(k);
     assert(x * pow2(k) >= 0 && y * pow2(k) >= 0) by (nonlinear_arith) requires x >= 0, y >= 0, pow2(k) > 0;
     if k == 0 {
-        assert(pow2(0) == 1) by (compute);
+        vstd::arithmetic::power2::lemma2_to64();
         assert(x * 1 == x && y * 1 == y);
         assert(br_gcd(x as nat, y as nat) * 1 == br_gcd(x as nat, y as nat));
     } else {
